@@ -172,6 +172,14 @@ func (t *Termer) Term(v ssa.Value, ps *pathState) string {
 	case *ssa.Lookup:
 		return t.Term(x.X, ps) + "[" + t.Term(x.Index, ps) + "]"
 	case *ssa.MakeClosure:
+		// named through FnKey so that the literal of a merely renamed function keeps its old name
+		if fn, ok := x.Fn.(*ssa.Function); ok && t.P != nil {
+			k := t.P.FnKey(fn)
+			if i := strings.LastIndex(k, "."); i >= 0 {
+				k = k[i+1:]
+			}
+			return "closure:" + k
+		}
 		return "closure:" + x.Fn.Name()
 	case *ssa.Function:
 		return "func:" + t.P.FnKey(x)
